@@ -69,6 +69,9 @@ def report(chk, c_rel, c_san, lean_exe, cls, lines, d, origin):
                                         "faults with '%s'" % fault[0].split(" |")[0]) if fault else ""))
         chk.violation(what, script_text(small, ["impl (%s) stderr:" % tag] + poolcorr.err_excerpt(err2)), True)
         return True
+    if d.get("index") is not None and d["index"] + 1 < len(lines):
+        # the stream differs at a definite operation: the prefix up to it is the replay
+        lines = lines[:d["index"] + 1]
     what = ("mempool exact-state correspondence (pooldrv vs CimbaModel.Mempool.Model) broken (%s) %s; the real pool's own "
             "monitors (patterns, alignment, overlap, sanitizers) report nothing on this script" % (origin, describe(d)))
     chk.violation(what, script_text(lines, ["impl stderr:"] + poolcorr.err_excerpt(d.get("err", ""), 8)), False)
